@@ -264,3 +264,190 @@ theorem evalSeq_append' (ext : Ext) (xs ys : List Mich) : evalSeq ext (xs ++ ys)
   funext S; simp [evalSeq_append, seqF]
 
 end Sem
+
+/-! ## The reference macro set (Michelson reference, section "Macros"): names and meanings
+
+Meanings are given as stack transformers that follow the reference rewriting rules literally; the value-level
+("denotational") readings (`treeVal?`, `flatten?`, `getPath`, `setPath`, `mapPath`) are related to them in
+`Props/C19.lean`. -/
+namespace Spec
+open Sem
+
+def prim0 (p : String) : Mich := .prim p [] []
+
+/-- `EQ | NEQ | LT | GT | LE | GE` -/
+def ops : List (List Char) := [['E', 'Q'], ['N', 'E', 'Q'], ['L', 'T'], ['G', 'T'], ['L', 'E'], ['G', 'E']]
+
+/-- `FAIL  >  UNIT ; FAILWITH` -/
+def FAIL : Mich := .seq [prim0 "UNIT", prim0 "FAILWITH"]
+/-- `CMP{op}  >  COMPARE ; op` -/
+def cmpx (op : String) : Mich := .seq [prim0 "COMPARE", prim0 op]
+/-- `IF{op} bt bf  >  op ; IF bt bf` -/
+def ifx (op : String) (bt bf : Mich) : Mich := .seq [prim0 op, .prim "IF" [bt, bf] []]
+/-- `IFCMP{op} bt bf  >  COMPARE ; op ; IF bt bf` -/
+def ifcmpx (op : String) (bt bf : Mich) : Mich := .seq [prim0 "COMPARE", prim0 op, .prim "IF" [bt, bf] []]
+/-- `ASSERT  >  IF {} {FAIL}` -/
+def assert : Mich := .prim "IF" [.seq [], .seq [FAIL]] []
+/-- `ASSERT_{op}  >  IF{op} {} {FAIL}` -/
+def assertX (op : String) : Mich := ifx op (.seq []) (.seq [FAIL])
+/-- `ASSERT_CMP{op}  >  IFCMP{op} {} {FAIL}` -/
+def assertCmpx (op : String) : Mich := ifcmpx op (.seq []) (.seq [FAIL])
+/-- `ASSERT_NONE  >  IF_NONE {} {FAIL}` -/
+def assertNone : Mich := .prim "IF_NONE" [.seq [], .seq [FAIL]] []
+/-- `ASSERT_SOME @x  >  IF_NONE {FAIL} {RENAME @x}` -/
+def assertSome (an : List String) : Mich := .prim "IF_NONE" [.seq [FAIL], .seq [.prim "RENAME" [] an]] []
+/-- `ASSERT_LEFT @x  >  IF_LEFT {RENAME @x} {FAIL}` -/
+def assertLeft (an : List String) : Mich := .prim "IF_LEFT" [.seq [.prim "RENAME" [] an], .seq [FAIL]] []
+/-- `ASSERT_RIGHT @x  >  IF_LEFT {FAIL} {RENAME @x}` -/
+def assertRight (an : List String) : Mich := .prim "IF_LEFT" [.seq [FAIL], .seq [.prim "RENAME" [] an]] []
+/-- `IF_SOME bt bf  >  IF_NONE bf bt` -/
+def ifSome (bt bf : Mich) : Mich := .prim "IF_NONE" [bf, bt] []
+/-- `IF_RIGHT bt bf  >  IF_LEFT bf bt` -/
+def ifRight (bt bf : Mich) : Mich := .prim "IF_LEFT" [bf, bt] []
+
+/-- `D I^n P` -/
+def dipName (n : Nat) : List Char := 'D' :: (List.replicate n 'I' ++ ['P'])
+/-- `D U^n P` -/
+def dupName (n : Nat) : List Char := 'D' :: (List.replicate n 'U' ++ ['P'])
+
+/-- `DII+P code  >  DIP (DI+P code)`: `n` nested `DIP`s -/
+def dixp : Nat → F → F
+  | 0, c => c
+  | n + 1, c => under 1 (dixp n c)
+
+/-- `DUP` for one `U`; `DUU+P  >  DIP (DU+P) ; SWAP` -/
+def duxp : Nat → F
+  | 0 => fun _ => .err
+  | 1 => dupStep
+  | n + 2 => under 1 (duxp (n + 1)) ⨾ swapStep
+
+/-- shapes of `P(A|P…)(I|P…)R` names -/
+inductive PairTree where
+  | leaf
+  | node (l r : PairTree)
+  deriving DecidableEq, Repr
+
+def PairTree.leaves : PairTree → Nat
+  | .leaf => 1
+  | .node l r => l.leaves + r.leaves
+
+/-- the letters of a subtree; `c` is the letter a leaf takes at this position (`A` left, `I` right) -/
+def PairTree.body : PairTree → Char → List Char
+  | .leaf, c => [c]
+  | .node l r, _ => 'P' :: (l.body 'A' ++ r.body 'I')
+
+def pairName (t : PairTree) : List Char := t.body 'A' ++ ['R']
+def unpairName (t : PairTree) : List Char := 'U' :: 'N' :: pairName t
+
+/-- `P(left)(right)R  >  (left)R ; DIP ((right)R) ; PAIR`, nothing to do for a leaf -/
+def build : PairTree → F
+  | .leaf => .ok
+  | .node l r => build l ⨾ under 1 (build r) ⨾ pairStep
+
+/-- `UNP(left)(right)R  >  UNPAIR ; DIP (UN(right)R) ; UN(left)R` -/
+def unbuild : PairTree → F
+  | .leaf => .ok
+  | .node l r => unpairStep ⨾ under 1 (unbuild r) ⨾ unbuild l
+
+/-- value reading of `build`: consume the leaves from the top of the stack, give the nested pair -/
+def treeVal? : PairTree → Stack → Option (Val × Stack)
+  | .leaf, x :: S => some (x, S)
+  | .leaf, [] => none
+  | .node l r, S =>
+    match treeVal? l S with
+    | some (a, S1) =>
+      match treeVal? r S1 with
+      | some (b, S2) => some (.pair a b, S2)
+      | none => none
+    | none => none
+
+/-- value reading of `unbuild`: the leaves of a nested pair of that shape, left to right -/
+def flatten? : PairTree → Val → Option (List Val)
+  | .leaf, v => some [v]
+  | .node l r, .pair a b =>
+    match flatten? l a, flatten? r b with
+    | some xs, some ys => some (xs ++ ys)
+    | _, _ => none
+  | .node _ _, _ => none
+
+inductive Dir where
+  | A
+  | D
+  deriving DecidableEq, Repr
+
+def Dir.char : Dir → Char
+  | .A => 'A'
+  | .D => 'D'
+
+abbrev Path := List Dir
+def pathChars (p : Path) : List Char := p.map Dir.char
+def cadrName (p : Path) : List Char := 'C' :: (pathChars p ++ ['R'])
+def setName (p : Path) : List Char := 'S' :: 'E' :: 'T' :: '_' :: 'C' :: (pathChars p ++ ['R'])
+def mapName (p : Path) : List Char := 'M' :: 'A' :: 'P' :: '_' :: 'C' :: (pathChars p ++ ['R'])
+
+/-- `CA(rest)R  >  CAR ; C(rest)R`, `CD(rest)R  >  CDR ; C(rest)R` -/
+def cxr : Path → F
+  | [] => .ok
+  | .A :: r => carStep ⨾ cxr r
+  | .D :: r => cdrStep ⨾ cxr r
+
+def getPath : Path → Val → Option Val
+  | [], v => some v
+  | .A :: r, .pair a _ => getPath r a
+  | .D :: r, .pair _ b => getPath r b
+  | _ :: _, _ => none
+
+/-- `SET_CAR > CDR ; SWAP ; PAIR`, `SET_CDR > CAR ; PAIR`,
+`SET_CA(rest)R > { DUP ; DIP { CAR ; SET_C(rest)R } ; CDR ; SWAP ; PAIR }`,
+`SET_CD(rest)R > { DUP ; DIP { CDR ; SET_C(rest)R } ; CAR ; PAIR }` -/
+def setCxr : Path → F
+  | [] => fun _ => .err
+  | [.A] => cdrStep ⨾ swapStep ⨾ pairStep
+  | [.D] => carStep ⨾ pairStep
+  | .A :: r => dupStep ⨾ under 1 (carStep ⨾ setCxr r) ⨾ cdrStep ⨾ swapStep ⨾ pairStep
+  | .D :: r => dupStep ⨾ under 1 (cdrStep ⨾ setCxr r) ⨾ carStep ⨾ pairStep
+
+/-- the value `v` with the component at `p` replaced by `x` -/
+def setPath : Path → Val → Val → Option Val
+  | [], _, _ => none
+  | [.A], .pair _ b, x => some (.pair x b)
+  | [.D], .pair a _, x => some (.pair a x)
+  | .A :: r, .pair a b, x => (setPath r a x).map (.pair · b)
+  | .D :: r, .pair a b, x => (setPath r b x).map (.pair a ·)
+  | _ :: _, _, _ => none
+
+/-- `MAP_CAR code > DUP ; CDR ; DIP { CAR ; code } ; SWAP ; PAIR` (the code runs on `a : S` for `Pair a b : S`),
+`MAP_CDR code > DUP ; CDR ; code ; SWAP ; CAR ; PAIR` (the code runs on `b : Pair a b : S`),
+`MAP_CA(rest)R code > { DUP ; DIP { CAR ; MAP_C(rest)R code } ; CDR ; SWAP ; PAIR }`,
+`MAP_CD(rest)R code > { DUP ; DIP { CDR ; MAP_C(rest)R code } ; CAR ; PAIR }` -/
+def mapCxr : Path → F → F
+  | [], _ => fun _ => .err
+  | [.A], c => dupStep ⨾ cdrStep ⨾ under 1 (carStep ⨾ c) ⨾ swapStep ⨾ pairStep
+  | [.D], c => dupStep ⨾ cdrStep ⨾ c ⨾ swapStep ⨾ carStep ⨾ pairStep
+  | .A :: r, c => dupStep ⨾ under 1 (carStep ⨾ mapCxr r c) ⨾ cdrStep ⨾ swapStep ⨾ pairStep
+  | .D :: r, c => dupStep ⨾ under 1 (cdrStep ⨾ mapCxr r c) ⨾ carStep ⨾ pairStep
+
+/-- the value `v` with the component at `p` replaced by its image under `f` -/
+def mapPath : Path → (Val → Val) → Val → Option Val
+  | [], _, _ => none
+  | [.A], f, .pair a b => some (.pair (f a) b)
+  | [.D], f, .pair a b => some (.pair a (f b))
+  | .A :: r, f, .pair a b => (mapPath r f a).map (.pair · b)
+  | .D :: r, f, .pair a b => (mapPath r f b).map (.pair a ·)
+  | _ :: _, _, _ => none
+
+def fixedNames : List (List Char) :=
+  ["FAIL".toList, "ASSERT".toList, "ASSERT_NONE".toList, "ASSERT_SOME".toList, "ASSERT_LEFT".toList,
+   "ASSERT_RIGHT".toList, "IF_SOME".toList, "IF_RIGHT".toList]
+
+/-- the names of the reference macro set -/
+def MacroName (s : List Char) : Prop :=
+  (∃ op ∈ ops, s = "CMP".toList ++ op ∨ s = "IF".toList ++ op ∨ s = "IFCMP".toList ++ op
+      ∨ s = "ASSERT_".toList ++ op ∨ s = "ASSERT_CMP".toList ++ op)
+  ∨ s ∈ fixedNames
+  ∨ (∃ n, 2 ≤ n ∧ (s = dipName n ∨ s = dupName n))
+  ∨ (∃ t : PairTree, 3 ≤ t.leaves ∧ (s = pairName t ∨ s = unpairName t))
+  ∨ (∃ p : Path, 2 ≤ p.length ∧ s = cadrName p)
+  ∨ (∃ p : Path, 1 ≤ p.length ∧ (s = setName p ∨ s = mapName p))
+
+end Spec
